@@ -72,7 +72,7 @@ func main() {
 			obls := P.lemmaObls(lm)
 			solveAll(P, obls, 20000, true, 4)
 			for _, o := range obls {
-				fmt.Printf("  %s: %s %dms [%s]\n", o.Name, o.Result.Verdict, o.Result.Ms, o.Result.Solver)
+				fmt.Printf("  %s: %s %dms [%s] %s\n", o.Name, o.Result.Verdict, o.Result.Ms, o.Result.Solver, o.Goal)
 			}
 		}
 	case "list":
